@@ -32,3 +32,17 @@ Proof. exact alone_is_sequential. Qed.
 (* index updates never panic, whatever state a concurrent request left (total on every index) *)
 Theorem C11_index_update_total : forall d cs i, exists i', add_desc d cs i = Ok i'.
 Proof. exact add_desc_total. Qed.
+
+(* no lost update: whatever the scheduler does, the store sees some sequence of atomic actions; in any such sequence in
+   which the index of r is only modified by insertions of plain tagged descriptors with pairwise distinct tags, every
+   inserted descriptor (tag, digest) is in r's index at the end - tags pushed concurrently are all present afterwards *)
+Theorem C11_concurrent_tag_pushes_all_present : forall cfg E r D,
+  c_readonly cfg = false ->
+  Forall plain_tagged D ->
+  (forall d1 d2, In d1 D -> In d2 D -> ann_get RefName d1 = ann_get RefName d2 -> d1 = d2) ->
+  forall acts s, Forall (only_inserts r D) acts ->
+    forall d, In d D ->
+      (In d (top (r_index (get_repo cfg r s))) \/ In (AIndexInsert r d []) acts) ->
+      In d (top (r_index (get_repo cfg r (exec_acts cfg E acts s)))).
+Proof. exact concurrent_tag_pushes_all_present. Qed.
+Print Assumptions C11_concurrent_tag_pushes_all_present.
